@@ -8,6 +8,7 @@ import (
 	"verif/internal/batch"
 	"verif/internal/genlab"
 	"verif/internal/refmodel"
+	"verif/internal/space"
 )
 
 func init() {
@@ -103,6 +104,18 @@ func c19Cases(level int) []SCase {
 		}
 		sc.ID = "C19/" + sc.ID
 		cases = append(cases, sc)
+	}
+	// object / map schemas that are allOf / anyOf branches themselves (such types get unmarshalers even when they are maps)
+	for _, pos := range space.Positions(1) {
+		if pos.Name != "anyof-branch" && pos.Name != "allof-branch" {
+			continue
+		}
+		for _, l := range space.Leaves(level) {
+			if l.Kind != "object" && l.Kind != "map" {
+				continue
+			}
+			cases = append(cases, SCase{ID: "C19/" + pos.Name + "/" + l.Name, Schema: pos.Wrap(space.Clone(l.S), true), Cfg: baseCfg(), Axes: map[string]string{"pos": pos.Name, "leaf": l.Name}})
+		}
 	}
 	if level >= 1 {
 		add(c05Cases(0), 3)
